@@ -58,7 +58,7 @@ fn build_points(class: PointClass, raw: &[Vec<i16>], l: i32, m: usize) -> Vec<Ve
     let n = raw.len();
     let first = |j: usize| raw.get(j.min(n.saturating_sub(1))).cloned().unwrap_or_default();
     match class {
-        PointClass::Lattice | PointClass::Bytes | PointClass::AdjacentFloats | PointClass::LargeStructured => raw.iter().map(|r| row_lat(r, l)).collect(),
+        PointClass::Lattice | PointClass::Bytes | PointClass::AdjacentFloats | PointClass::LargeStructured | PointClass::OffsetCloud => raw.iter().map(|r| row_lat(r, l)).collect(),
         PointClass::AllEqual => {
             let p = row_lat(&first(0), l);
             raw.iter().map(|_| p.clone()).collect()
@@ -411,17 +411,22 @@ pub fn small_exhaustive(thorough: bool) -> Vec<Case> {
 // Distance functions
 
 pub fn dist_case_strategy() -> impl Strategy<Value = DistCase> {
-    (dim_strategy(), 0u8..4).prop_flat_map(|(dim, mode)| {
+    (prop_oneof![3 => dim_strategy().boxed(), 2 => (8usize..=16).boxed(), 1 => (17usize..=32).boxed()], 0u8..7, any::<bool>()).prop_flat_map(|(dim, mode, single)| {
+        // modes 4..6: small integers / halves on top of a large common offset (exactly representable in the element type)
+        let off = if single { 8192.0 } else { 134217728.0 };
         let coord = move |x: i16| -> f64 {
             match mode {
                 0 => lat(x, 3),
                 1 => (x as f64) / 512.0,
                 2 => (x as f64) * 0.0003,
-                _ => lat(x, 2) * 1000.0 + (x as f64) / 4096.0,
+                3 => lat(x, 2) * 1000.0 + (x as f64) / 4096.0,
+                4 => off + lat(x, 3),
+                5 => -off + lat(x, 6) / 2.0,
+                _ => off * 1.5 + lat(x, 40),
             }
         };
         let v = move || vec(any::<i16>().prop_map(coord), dim);
-        (any::<bool>(), metric_strategy(), v(), v(), v(), v(), 0u8..6).prop_map(|(single, metric, a, b, c, d, same)| {
+        (Just(single), metric_strategy(), v(), v(), v(), v(), 0u8..6).prop_map(|(single, metric, a, b, c, d, same)| {
             // related pairs: identical points, equal distances by construction (shifted copy)
             let (c, d) = match same {
                 0 => (a.clone(), b.clone()),
@@ -609,4 +614,47 @@ pub fn large_strategy(nq: usize) -> impl Strategy<Value = LargeCase> {
         any::<bool>(),
     )
         .prop_map(move |(seed, shape, n, dim, single, metric, leaf, shuffled)| LargeCase { seed, shape, n, dim, single, metric, leaf, nq, shuffled })
+}
+
+// ------------------------------------------------------------------------------------------------
+// offset clouds: small exactly representable gaps far from the origin, mostly wide points
+
+pub fn offset_strategy() -> impl Strategy<Value = Case> {
+    (prop_oneof![6 => 8usize..=16, 1 => 17usize..=32, 1 => 2usize..=7], any::<bool>()).prop_flat_map(|(dim, single)| {
+        (
+            (metric_strategy(), 1i32..=3, layout_strategy(), entry_strategy(), 0u8..6, vec(0u8..4, dim)),
+            vec(vec(any::<i16>(), dim), 0..=40),
+            vec(raw_query(dim), 1..=3),
+            leaf_strategy(),
+        )
+            .prop_map(move |((metric, l, layout, entry, omode, osel), raw, rqs, (lmode, lraw))| {
+                let n = raw.len();
+                let big = if single { 8192.0 } else { 134217728.0 };
+                let list = [big, -big, big * 1.5, big / 2.0];
+                // one common offset for every coordinate (modes 0..=3) or one per coordinate
+                let offsets: Vec<f64> = (0..dim)
+                    .map(|j| if omode < 4 { list[omode as usize % 4] } else { list[osel.get(j).copied().unwrap_or(0) as usize % 4] })
+                    .collect();
+                let base = build_points(PointClass::Lattice, &raw, l, 1);
+                let shift = |p: &Vec<f64>| -> Vec<f64> { p.iter().zip(offsets.iter()).map(|(x, o)| x + o).collect() };
+                let queries = rqs
+                    .iter()
+                    .map(|rq| {
+                        let mut q = build_query(rq, &base, dim, l, None);
+                        q.point = shift(&q.point);
+                        q
+                    })
+                    .collect();
+                let points: Vec<Vec<f64>> = base.iter().map(shift).collect();
+                let leaf = match lmode {
+                    0 | 1 => 1,
+                    2 => 2,
+                    3 => 3,
+                    4 => 16,
+                    5 => n.max(1),
+                    _ => 1 + idx(lraw, n + 1),
+                };
+                Case { single, metric, class: PointClass::OffsetCloud, dim, points, leaf, queries, layout, entry }
+            })
+    })
 }
